@@ -321,13 +321,27 @@ def random_ops(seed, length=40):
     rng = random.Random(seed)
     names = ["a", "b", "c", "d"]
     fl = list(FILTERS)
-    focus = rng.sample(fl, 3)
+    # focus filters: repeated often so that thresholds are crossed.  Half of the histories focus
+    # on a family of filters that share index keys (so that one filter's use of the index can
+    # disturb what another one reads from it)
+    FAMILIES = [(["partstat", "noPartstat", "declined", "hasAtt"], ["att", "attN", "attMix", "att2", "jan"]),
+                (["fA", "fB", "fC", "fD", "notAlpha", "sumMoved"], ["m1", "m2", "m3", "m4", "override", "empty"]),
+                (["tJan", "tFeb", "tJanSum", "ptr"], ["jan", "feb", "edge", "allday", "dur", "override", "tz"]),
+                (["hasLoc", "noLoc", "notLoc1", "fD"], ["m1", "m2", "m4", "empty", "janB", "jan"]),
+                (["hasPrio", "noSeq", "catTwo"], ["zero", "cat2", "jan", "empty"])]
     bodies = list(BODIES)
+    favoured = bodies
+    if rng.random() < 0.6:
+        fam, favoured = rng.choice(FAMILIES)
+        fam = [f for f in fam if f in FILTERS]
+        focus = rng.sample(fam, min(3, len(fam)))
+    else:
+        focus = rng.sample(fl, 3)
     ops = []
     for _ in range(length):
         r = rng.random()
         if r < 0.22:
-            ops.append(["put", rng.choice(names), rng.choice(bodies)])
+            ops.append(["put", rng.choice(names), rng.choice(favoured) if rng.random() < 0.7 else rng.choice(bodies)])
         elif r < 0.28:
             ops.append(["delete", rng.choice(names)])
         else:
